@@ -88,7 +88,7 @@ Proof. repeat split; vm_compute; reflexivity. Qed.
 Lemma getitem_narrow_fixed :
   res_ok [0; 1; 2] (run1 (OGetItem (GOne IEll)) b3) = true
   /\ res_ok [0; 1; 2] (run1 (OGetItem (GOne (IBools [true; false; true]))) b3) = true
-  /\ res_ok [0; 1; 2] (run1 (ONarrowM (-4)%Z 1 2) b3) = true.
+  /\ res_ok [0; 1; 2] (run1 (ONarrowM (-4)%Z 1%Z 2) b3) = true.
 Proof. repeat split; vm_compute; reflexivity. Qed.
 Lemma flowfields_fixed :
   (res_ok [0; 1; 2] (run1 (ONarrow 0%Z 1 2) f3) = true /\ res_ok [0; 1; 2] (run1 (ORepeat [2; 1; 1; 1]) f3) = true)
